@@ -171,7 +171,10 @@ Lemma dstep0_refines c s o :
   crel c s -> (dstep0 c o).2 = (sstep0 s o).2 /\ crel (dstep0 c o).1 (sstep0 s o).1.
 Proof.
   intros R. pose proof R as [Hch Hread Hown Hwr]. fold (writers_rel (cl_writers c) (sg_writers s)) in Hwr.
-  destruct o as [id gw keys auto|id f|id f keep ks|id|id]; cbn [dstep0 sstep0]; [| |split; [reflexivity|exact R]| |].
+  destruct o as [id gw keys auto|id f|id f keep ks|id|id|id gw p keys auto]; cbn [dstep0 sstep0];
+    [| |split; [reflexivity|exact R]| | |].
+  5: { destruct keys as [|k0 keys']; [split; [reflexivity|exact R]|].
+       rewrite Hch. destruct (forallb _ (k0 :: keys')); split; try reflexivity; exact R. }
   - (* open *)
     destruct keys as [|k0 keys']; [split; [reflexivity|exact R]|].
     rewrite Hch. destruct (forallb _ (k0 :: keys')); cbn [fst snd]; [|split; [reflexivity|exact R]].
@@ -250,6 +253,37 @@ Proof.
   split; [apply (cr_read _ _ R)|]. split; [|exact E].
   intros n k Hne. unfold stray. destruct (default ∅ (cl_store c !! n) !! k) as [x|] eqn:Ex; [|reflexivity].
   exfalso. apply Hne. symmetry. apply (cr_own _ _ R n k). rewrite Ex. eauto.
+Qed.
+
+(* ---- transport faults: an open that fails because a leaseholder cannot be reached leaves nothing
+   behind, so the rest of the script runs exactly as if the open had not been attempted *)
+Definition is_cut (o : dop) : bool :=
+  match o with OpenCut _ gw p keys _ => cut_hits gw p keys | _ => false end.
+Lemma cut_open_no_effect c o : is_cut o = true -> (dstep c o).1 = c.
+Proof.
+  destruct o as [| | | | |id gw p keys auto]; cbn [is_cut]; try discriminate. intros H.
+  unfold dstep. cbn [eff_op]. rewrite H. cbn [dstep0].
+  destruct keys as [|k0 keys']; [reflexivity|]. destruct (forallb _ (k0 :: keys')); reflexivity.
+Qed.
+Lemma cut_open_result c id gw p keys auto :
+  cut_hits gw p keys = true -> keys <> [] -> Forall (fun k => k ∈ cl_chans c) keys ->
+  dstep c (OpenCut id gw p keys auto) = (c, DUnreachable).
+Proof.
+  intros H Hne Hall. unfold dstep. cbn [eff_op]. rewrite H. cbn [dstep0].
+  destruct keys as [|k0 keys']; [congruence|].
+  assert (E : forallb (fun k => memb k (cl_chans c)) (k0 :: keys') = true).
+  { apply forallb_forall. intros k Hk. apply elem_of_list_In in Hk.
+    rewrite Forall_forall in Hall. specialize (Hall k Hk).
+    unfold memb. apply existsb_exists. exists k. split; [apply elem_of_list_In, Hall|apply N.eqb_refl]. }
+  rewrite E. reflexivity.
+Qed.
+Lemma drun_skips_cut : forall ops c,
+  drun c ops = drun c (List.filter (fun o => negb (is_cut o)) ops).
+Proof.
+  induction ops as [|o ops IH]; intros c; [reflexivity|]. cbn [List.filter].
+  destruct (is_cut o) eqn:E; cbn [negb drun].
+  - rewrite (cut_open_no_effect c o E). apply IH.
+  - apply IH.
 Qed.
 
 (* ---- unknown channels *)
